@@ -759,8 +759,9 @@ def verify(contract, report, max_paths=5000, options=None, replay=None,
             report.canary(name, res)
             continue
         rp = None
-        if replay is not None and cr.verdict == smt.REFUTED and \
-                cr.inputs is not None and "__error__" not in cr.inputs:
+        if replay is not None and cr.verdict == smt.REFUTED and cr.inputs is not None:
+            # (inputs that could not be concretised are passed on as such: a
+            # replay harness with a fixed scenario does not need them)
             rp = (lambda m, cr=cr: replay(cr.name, cr.inputs, cr.notes))
         report.obligation(name, res, func=contract.qualname, text=cr.text,
                           replay=rp, candidate=getattr(cr, "candidate", False))
